@@ -173,11 +173,15 @@ Qed.
 Lemma sumZ_perm l l' : Permutation l l' -> sumZ l = sumZ l'.
 Proof. induction 1; simpl; lia. Qed.
 
-(* the latency sum is a function of the sorted latency path: the hypothesis that makes
-   "which duplicate is kept" irrelevant holds for every path of the model *)
-Lemma lat_sum_canon off p : (lat_sum p, lat_path off p) = canon (lat_path off p).
+(* the latency sum is computed from the sorted latency path (kernel_dg.py sums `lat_path` after `lat_path.sort()`): it is a
+   function of the sorted latency path by construction, which makes "which duplicate is kept" irrelevant *)
+Lemma lat_sum_canon lp : (lat_sum lp, lp) = canon lp.
+Proof. unfold canon, lat_sum. f_equal. rewrite fold_left_sum. reflexivity. Qed.
+
+(* over Z (exact arithmetic) the sum in path order -- what the code computed before it summed the sorted list -- is the same number *)
+Lemma lat_sum_path_order off p : lat_sum p = lat_sum (lat_path off p).
 Proof.
-  unfold canon, lat_sum, lat_path. f_equal. rewrite fold_left_sum. simpl.
+  unfold lat_sum, lat_path. rewrite !fold_left_sum. f_equal.
   transitivity (sumZ (map snd (map (mapback off) p))).
   - rewrite map_map. simpl. reflexivity.
   - apply sumZ_perm, Permutation_map, Permutation_sym, isort_perm.
@@ -422,7 +426,7 @@ Qed.
 (* without any hypothesis: every reported entry is the entry of a path that was delivered *)
 Lemma partial_genuine_lemma off ps d e :
   post off ps = Some d -> In e d ->
-  exists p, In p ps /\ p <> [] /\ e = entry_of (lat_sum p, lat_path off p).
+  exists p, In p ps /\ p <> [] /\ e = entry_of (lat_sum (lat_path off p), lat_path off p).
 Proof.
   unfold post. destruct (existsb is_nil ps) eqn:En; [discriminate|]. intros H He. inversion H; subst d.
   apply build_In in He. destruct He as (it & Hit & E).
